@@ -89,6 +89,7 @@ pub fn one_case(r: &mut Rng, silent: &Arc<Mutex<Option<String>>>) -> Case {
         }
     }));
     let _ = simk::with(|s| s.take_log());
+    let mut teardown_ring: Option<a10::Ring> = None;
     let out = sched::run(threads, &prefix);
 
     // ---- observations ----------------------------------------------------------------------------
@@ -217,6 +218,32 @@ pub fn one_case(r: &mut Rng, silent: &Arc<Mutex<Option<String>>>) -> Case {
     if out.stuck {
         oracle.get_or_insert("a thread blocked forever".into());
     }
+
+    // ---- what `enter` hands to the kernel afterwards ---------------------------------------------
+    {
+        let mut ring = ring;
+        let before = pending.len();
+        let _ = simk::with(|s| s.take_log());
+        let r = std::panic::catch_unwind(std::panic::AssertUnwindSafe(|| ring.poll(Some(std::time::Duration::ZERO))));
+        let mut to_submit: i128 = -1;
+        for e in simk::with(|s| s.take_log()) {
+            if let Ev::Enter { to_submit: n, .. } = e {
+                if to_submit < 0 {
+                    to_submit = n as i128;
+                }
+            }
+        }
+        obs.push(-4);
+        obs.push(to_submit);
+        if r.is_err() {
+            let msg = silent.lock().unwrap().take().unwrap_or_default();
+            oracle.get_or_insert(format!("Ring::poll panicked: {msg}"));
+        } else if to_submit != before as i128 {
+            oracle.get_or_insert(format!("{before} accepted submissions are pending but enter tells the kernel to take {to_submit}: the rest is never submitted"));
+        }
+        teardown_ring = Some(ring);
+    }
+    let ring = teardown_ring.take().unwrap();
 
     // ---- teardown -------------------------------------------------------------------------------
     simk::with(|s| {
